@@ -18,7 +18,7 @@ ID = "C17"
 LEVEL = "exploration"
 RULE = (
     "every G case (all families incl. update ops and tensor factories, three numpy backends) compiled at its base sizes and at 2 scaled size assignments that agree on which axes have "
-    "length 1; distinct by (op, backend, literal-abstracted AST dump); non-trivial if the generated function has >= 2 statements"
+    "length 1, plus (code only, graph=True on zero-stride views) one assignment scaled by 64-4096 per axis; distinct by (op, backend, literal-abstracted AST dump); non-trivial if the generated function has >= 2 statements"
 )
 ASSUMPTIONS = ["numeric axes written in the description are part of the description and are not scaled", "only integer literals are abstracted; strings (einsum specs, dtypes) must be identical"]
 TIMEOUT = {"quick": 900, "thorough": 7200}
@@ -49,15 +49,18 @@ def abstract_dump(text):
     return ast.dump(tree), bad
 
 
-def scaled_case(case, rng):
-    """Same description, unit axes kept, other named axes scaled by independent factors."""
+def scaled_case(case, rng, factors=(2, 3, 4, 5), huge=False):
+    """Same description, unit axes kept, other named axes scaled by independent factors.
+    huge=True: factors of 64-4096, tensors are zero-stride views (no memory); meant for graph=True only."""
     import copy
     from ..gen.cases import Skip
     c2 = copy.copy(case)
     c2.var_sizes = {}
+    if huge:
+        c2.note = {**case.note, "no_size_limit": True}
     fixed = case.note.get("fixed_vars", set())
     for name, vs in case.var_sizes.items():
-        c2.var_sizes[name] = list(vs) if name in fixed else [v if v == 1 else v * rng.choice([2, 3, 4, 5]) for v in vs]
+        c2.var_sizes[name] = list(vs) if name in fixed else [v if v == 1 else v * rng.choice(factors) for v in vs]
     c2.kwargs = {}
     for k, v in case.kwargs.items():
         old = case.var_sizes[k]
@@ -79,11 +82,14 @@ def scaled_case(case, rng):
         for e in c2.xin:
             for l in xleaves(e):
                 l.bracket = l.tname not in out_names
-    if any(math.prod(s) > 300000 for s in c2.in_shapes + c2.out_shapes):
+    if any(math.prod(s) > (2**44 if huge else 300000) for s in c2.in_shapes + c2.out_shapes):
         raise Skip()
     c2.tensors = []
     for shape, dt, t in zip(c2.in_shapes, case.dtypes, case.tensors):
-        c2.tensors.append(np.zeros(shape, dtype=np.asarray(t).dtype))
+        if huge:
+            c2.tensors.append(np.broadcast_to(np.zeros((), dtype=np.asarray(t).dtype), shape))
+        else:
+            c2.tensors.append(np.zeros(shape, dtype=np.asarray(t).dtype))
     return c2
 
 
@@ -193,9 +199,37 @@ def run(spec, out):
                         out.count("backend_calls_observed", len(names0))
 
 
+        # (2b) sizes scaled by 64-4096 (tensors are zero-stride views; only the code is requested): thresholds on element counts
+        # (fast paths for big tensors) would show as a structural difference
+        from .. import exec as X
+        try:
+            c3 = scaled_case(case, rng, factors=(64, 256, 1024, 4096), huge=True)
+        except Exception:
+            out.count("huge_scaling_skipped")
+            continue
+        hooks.window()
+        st3, text3 = X.einx_call(c3, b, list(c3.tensors), graph=True)
+        if st3 != "ok" or not isinstance(text3, str):
+            if st3 == "exc" and status == "ok":
+                out.violation({"kind": "scaled-sizes-rejected", "exc": type(text3).__name__, "scale": "huge"}, {"case": case.to_json(), "scaled_shapes": [list(s) for s in c3.in_shapes], "message": str(text3)[:300]},
+                              f"{case.op}({case.desc()!r}) compiles at {case.in_shapes} but is rejected at sizes {c3.in_shapes}: {type(text3).__name__}")
+            else:
+                out.count("huge_no_text")
+            continue
+        dump3, _ = abstract_dump(text3)
+        out.count("huge_pairs")
+        if max(math.prod(s) for s in c3.in_shapes + c3.out_shapes) >= 2**16:
+            out.count("huge_pairs_over_65536_elements")
+        if dump3 != dump0:
+            out.violation({"kind": "structure-depends-on-sizes", "family": case.family, "scale": "huge"}, {"case": case.to_json(), "base_text": text, "scaled_text": text3, "scaled_shapes": [list(s) for s in c3.in_shapes]},
+                          f"generated code for {case.op}({case.desc()!r}) differs structurally between sizes {case.in_shapes} and {c3.in_shapes}")
+        else:
+            out.count("huge_same_structure")
+
+
 def finalize(agg, tier, seed):
     c = agg.counters
-    for k in ("asts_checked", "scaled_same_structure", "dynamic_same_calls"):
+    for k in ("asts_checked", "scaled_same_structure", "dynamic_same_calls", "huge_same_structure", "huge_pairs_over_65536_elements"):
         if c.get(k, 0) < 100:
             agg.inconclusive.append(f"monitor counter {k} = {c.get(k, 0)}")
     return {}
